@@ -150,11 +150,25 @@ def _token(v):
     return j if isinstance(j, str) else json.dumps(j)
 
 
+def _option(shape, k, v):
+    """Command-line tokens of one argument.  Arguments declared with nargs take their items as separate tokens,
+    append actions one occurrence per item (shape["argv_style"]); everything else is --key=<text or JSON>."""
+    style = shape.get("argv_style", {}).get(k)
+    j = to_json(v)
+    if style and isinstance(j, list):
+        toks = [x if isinstance(x, str) else json.dumps(x) for x in j]
+        if style == "nargs":
+            return [f"--{k}"] + toks
+        if style == "repeat":
+            return [f"--{k}={t}" for t in toks]
+    return [f"--{k}={_token(v)}"]
+
+
 def argv_of(shape, cfg):
     items = flatten(cfg)
     sub = shape.get("subcommand_key")
     if not sub:
-        return [f"--{k}={_token(v)}" for k, v in items]
+        return [tok for k, v in items for tok in _option(shape, k, v)]
     chosen = cfg.get(sub)
     head = [f"--{k}={_token(v)}" for k, v in items if k != sub and not (isinstance(chosen, str) and k.startswith(chosen + "."))]
     if not isinstance(chosen, str):
@@ -487,6 +501,121 @@ def _links(scratch):
     return p
 
 
+# Schemas of the ActionJsonSchema arguments: validation fills in the schema defaults ("weight", "tags", "lvl"), so
+# a value without them is a value that still needs adaptation.
+ARRAY_SCHEMA = {
+    "type": "array",
+    "items": {
+        "type": "object",
+        "properties": {
+            "name": {"type": "string"},
+            "weight": {"type": "integer", "default": 7},
+            "tags": {"type": "array", "items": {"type": "integer"}, "default": [1]},
+        },
+        "additionalProperties": False,
+    },
+}
+OBJECT_SCHEMA = {
+    "type": "object",
+    "properties": {"tags": {"type": "array", "items": {"type": "integer"}}, "lvl": {"type": "integer", "default": 3}},
+    "additionalProperties": False,
+}
+
+# Declared defaults of the non-type-hint arguments in the two forms (as in the generated family): "raw" = not yet
+# converted / completed (hexadecimal text, objects without their schema defaults), "final" = what a parse returns.
+ACTION_DEFAULTS = {
+    "raw": {
+        "plus": ["ff", "10"],
+        "star": ["1"],
+        "two": ["1", "2"],
+        "opt": "a",
+        "acc": ["p"],
+        "arr": [{"name": "a"}, {"name": "b", "tags": [2]}],
+        "obj": {"tags": [1]},
+        "jn": {"a": [1, {"b": [2]}]},
+        "inner.xs": ["a", "b"],
+        "inner.ys": [1],
+    },
+    "final": {
+        "plus": [255, 16],
+        "star": [1],
+        "two": [1, 2],
+        "opt": 10,
+        "acc": ["p"],
+        "arr": [{"name": "a", "weight": 7, "tags": [1]}, {"name": "b", "weight": 7, "tags": [2]}],
+        "obj": {"tags": [1], "lvl": 3},
+        "jn": {"a": [1, {"b": [2]}]},
+        "inner.xs": [10, 11],
+        "inner.ys": [1],
+    },
+}
+
+
+def _actions(scratch, dform):
+    """Every kind of argument that is NOT type-hint based and can hold a container: plain argparse store actions
+    with a user-written converter as type= and nargs + / * / N / ?, an append action, ActionJsonSchema (array and
+    object schema with schema defaults), ActionJsonnet, a nested parser (ActionParser) with such arguments, ActionYesNo;
+    declared defaults in raw or in final form."""
+    from typing import List
+
+    from jsonargparse import ActionConfigFile, ActionJsonnet, ActionJsonSchema, ActionParser, ActionYesNo
+    from mc.fixtures.c08.lib import hexint
+
+    d = build(ACTION_DEFAULTS[dform], "dict")
+    inner = _parser()
+    inner.add_argument("--xs", nargs="+", type=hexint, default=d["inner.xs"])
+    inner.add_argument("--ys", type=List[int], default=d["inner.ys"])
+    p = _parser()
+    p.add_argument("--cfg", action=ActionConfigFile)
+    p.add_argument("--plus", nargs="+", type=hexint, default=d["plus"])
+    p.add_argument("--star", nargs="*", type=hexint, default=d["star"])
+    p.add_argument("--two", nargs=2, type=hexint, default=d["two"])
+    p.add_argument("--opt", nargs="?", type=hexint, const="5", default=d["opt"])
+    p.add_argument("--acc", action="append", default=d["acc"])
+    p.add_argument("--arr", action=ActionJsonSchema(schema=ARRAY_SCHEMA), default=d["arr"])
+    p.add_argument("--obj", action=ActionJsonSchema(schema=OBJECT_SCHEMA), default=d["obj"])
+    p.add_argument("--jn", action=ActionJsonnet(), default=d["jn"])
+    p.add_argument("--inner", action=ActionParser(parser=inner))
+    p.add_argument("--yn", action=ActionYesNo, default=False)
+    return p
+
+
+def _actions_raw(scratch):
+    return _actions(scratch, "raw")
+
+
+def _actions_final(scratch):
+    return _actions(scratch, "final")
+
+
+_ACTION_CONFIGS = [
+    # every argument given, everything still to be converted / completed
+    {
+        "plus": ["a", "b"],
+        "star": ["c", "d"],
+        "two": ["1", "2"],
+        "opt": "f",
+        "acc": ["x", "y"],
+        "arr": [{"name": "q"}, {"name": "r", "tags": [2, 3]}],
+        "obj": {"tags": [2, 3]},
+        "jn": {"a": [1, {"b": [2]}]},
+        "inner": {"__ns__": {"xs": ["d", "e"], "ys": ["3", 4]}},
+        "yn": True,
+    },
+    # final form: nothing needs conversion
+    {
+        "plus": [10, 11],
+        "two": [1, 2],
+        "arr": [{"name": "q", "weight": 7, "tags": [1]}],
+        "obj": {"tags": [2], "lvl": 3},
+        "inner": {"__ns__": {"xs": [13, 14], "ys": [3]}},
+    },
+    # nothing given: the declared defaults themselves travel through the whole call
+    {},
+]
+_ACTION_ARGV = {"plus": "nargs", "star": "nargs", "two": "nargs", "inner.xs": "nargs", "acc": "repeat"}
+
+
 def _cp(cls, **init):
     d = {"class_path": f"{FIX}.{cls}"}
     if init:
@@ -603,6 +732,8 @@ NAMED = {
         "make": _links,
         "configs": [{"src": ["1", 2]}, {"src": [3], "b": {"__ns__": {"tp": [["A"], "z"]}}}],
     },
+    "actions_raw": {"make": _actions_raw, "config_option": True, "argv_style": _ACTION_ARGV, "configs": _ACTION_CONFIGS},
+    "actions_final": {"make": _actions_final, "config_option": True, "argv_style": _ACTION_ARGV, "configs": _ACTION_CONFIGS},
 }
 
 for _n, _s in NAMED.items():
